@@ -10,7 +10,7 @@ def rows(prefix_r2):
     for d in sorted(os.listdir('/verif/seeded')):
         mp=f'/verif/seeded/{d}/meta.json'
         if not os.path.exists(mp): continue
-        rnd = 3 if d.startswith('R3-') else (True if d.startswith('R2-') else False)
+        rnd = 4 if d.startswith('R4-') else 3 if d.startswith('R3-') else (True if d.startswith('R2-') else False)
         if rnd != prefix_r2: continue
         m=json.load(open(mp)); det=m.get('detection',{})
         fd=det.get('first_detail','')
@@ -188,6 +188,46 @@ C05/C03-Hypergeometric-h2pe-huge-N, fix 95ed336 for the panic).
 | id | change | needs | caught by | time incl. rebuild |
 |---|---|---|---|---|
 {rows(3)}
+
+**Round 4: 24 changes** for C01, C02, C03, C05, C08, C09, C10, C11 (the
+properties round 3 had left out, plus second helpings where the oracles had
+changed). Before the official evaluation the agents' reports were read and a
+preview was run in a scratch clone; 19 of 24 were caught there by their own
+property's quick check. What the other five led to:
+
+* R4-C02-2 (Poisson correction polynomial lost: ~1 % per atom at λ = 12,
+  fading like 1/λ) was below the quick resolution at 4e6 draws: the
+  switch-grid cells of the discrete samplers now get 1.6e7 draws at the quick
+  tier.
+* R4-C03-2 (float alias tables with more than 32 weights return zero-weight
+  entries) is outside C03's alias cells (short vectors); C08 catches it
+  (cross-detection).
+* R4-C05-3 (HIN loop without its bound: spins forever without consuming a
+  word) ended the check with exit 2 — the hang monitor required > 0.5 s of CPU
+  per wall second and the machine was oversubscribed. The monitor now decides
+  on the thread's CPU time since the call was announced.
+* R4-C05-2 (CPU time, not words: an O(σ) recursion on every left proposal)
+  needed the new per-call CPU-time oracle (3 s, thread CPU clock) — written
+  after reading the agent's report, before the preview.
+* R4-C08-2 (plain instead of pairwise float summation: one weight of ~1e4 is
+  reconstructed 15 ε·Σw off) stays **undetected by design**: the sound
+  rounding bound of the unmodified construction is 2 ε (n·w_i + (1+log2 n) Σw)
+  ≈ 31 ε·Σw there, and a change that stays inside the rounding allowance of the
+  documented algorithm is not a violation of "agrees to rounding error" that a
+  sound check may report (the plan's tolerance was 1000× looser still; it was
+  tightened to that bound because of this change).
+* R4-C09-2 (`is_valid` as `total != 0`) is the change C10-3 of round 1 under
+  another property: for float trees C09 cannot judge `is_valid` against the
+  list (rounding residues make it unreliable on the unchanged tree too); C10
+  catches the consequence (valid tree, sampling panics).
+
+Further cells added from the reports before the preview: Gamma(k, inf) for
+small k (R4-C03-1), Binomial n = 2^50 … 2^63 with n·p ∈ {½, 2, 9.5}
+(R4-C05-1).
+
+| id | change | needs | caught by | time incl. rebuild |
+|---|---|---|---|---|
+{rows(4)}
 
 Cross-detection seen on the way (not systematically measured): C11-2 ≡ C14-2
 (same Dirichlet early exit) is caught by both C11 (marginal law of the stale
